@@ -67,8 +67,22 @@ pub fn gen_linear_scen(rng: &mut Rng, thorough: bool, ext: bool, outside: bool) 
     if outside {
         queries.extend(queries_outside(rng, &axv, f32safe, 10));
     }
-    let class = if default_axis { "default-axis".to_string() } else { format!("{:?}", sp) };
-    (Scen1 { strat: Strat1::Linear, ext, ax, rows, trail, queries }, f32safe, class)
+    let mut class = if default_axis { "default-axis".to_string() } else { format!("{:?}", sp) };
+    let mut sc = Scen1 { strat: Strat1::Linear, ext, ax, rows, trail, queries };
+    let mut f32safe = f32safe;
+    // balanced huge / tiny magnitudes: axis and data scaled by the same power of two (exact), so
+    // that slopes stay moderate while products of differences leave the f64 range
+    if !default_axis && sp != Spacing::MixedMag && sp != Spacing::Clustered && rng.chance(1, 6) {
+        let e = if rng.coin() { 600 } else { -600 };
+        let f = (2.0f64).powi(e);
+        let scale = |v: &mut f64| *v *= f;
+        if let Some(a) = sc.ax.as_mut() { a.iter_mut().for_each(scale); }
+        sc.rows.iter_mut().for_each(|r| r.iter_mut().for_each(scale));
+        sc.queries.iter_mut().for_each(scale);
+        f32safe = false;
+        class = format!("{}*2^{}", class, e);
+    }
+    (sc, f32safe, class)
 }
 
 /// exact oracle for one scenario (Linear): expected value per query and lane, plus the bound scale
